@@ -9,6 +9,8 @@
 
 #include <filesystem>
 #include <fstream>
+#include <fcntl.h>
+#include <unistd.h>
 
 namespace fs = std::filesystem;
 using tulz::File;
@@ -18,7 +20,7 @@ namespace {
 
 struct Cover {
     uint64_t files = 0, bytesWritten = 0, bytesRead = 0, writeCalls = 0, appends = 0, truncations = 0, seeks = 0, sizeCalls = 0, readCalls = 0;
-    uint64_t reopens = 0, readerReuses = 0;
+    uint64_t reopens = 0, readerReuses = 0, sizeCallsWhileWriting = 0, sparseFiles = 0, descriptorChecks = 0;
     uint64_t missingKinds[4] = {0, 0, 0, 0};
     uint64_t errorProbes = 0, emptyFiles = 0, withNul = 0, withFF = 0, withCRLF = 0, large = 0, nontrivialCases = 0;
     std::map<std::string, uint64_t> modes, classes;
@@ -73,10 +75,21 @@ std::string firstDiff(const void *got, size_t gotN, const std::string &m) {
 }
 
 // writes `data` through the three overloads in random splits; returns false on a short count
-bool writeAll(File &f, const std::string &data, rt::Rng &rng, const char *site) {
+// `before`: bytes the file held when this session began (0 in write mode, the old content in append mode), or
+// (size_t)-1 if size() is not to be probed while writing
+bool writeAll(File &f, const std::string &data, rt::Rng &rng, const char *site, size_t before = (size_t) -1, bool appendMode = false) {
     size_t pos = 0;
     int calls = 0;
     while (pos < data.size() || calls == 0) {
+        if (before != (size_t) -1 && rng.chance(150)) {
+            // size() in the middle of a writing session counts the bytes handed over so far, flushed or not, and the
+            // next write continues where the last one ended
+            ++C.sizeCallsWhileWriting;
+            long t0 = appendMode ? 0 : f.tell();
+            size_t got = f.size();
+            if (got != before + pos) { fail("wrong-size", site, "size() = " + std::to_string(got) + " in the middle of a writing session, the file holds " + std::to_string(before) + " + " + std::to_string(pos) + " bytes written so far"); return false; }
+            if (!appendMode && (f.tell() != t0 || t0 != (long) pos)) { fail("size-moved-position", site, "position " + std::to_string(t0) + " before size(), " + std::to_string(f.tell()) + " after, " + std::to_string(pos) + " bytes written"); return false; }
+        }
         size_t left = data.size() - pos;
         size_t n = left == 0 ? 0 : (rng.chance(200) ? left : 1 + rng.below(std::min<size_t>(left, rng.chance(500) ? 17 : 5000)));
         unsigned how = (unsigned) rng.below(4);
@@ -212,6 +225,51 @@ void errorProbes(const std::string &dir, rt::Rng &rng) {
     if (fs::exists(missing, ec2)) fail("missing-file-created", site, "a failed open for reading created the file");
 }
 
+
+size_t openDescriptors() {
+    size_t n = 0;
+    std::error_code ec;
+    for (auto it = fs::directory_iterator("/proc/self/fd", ec); !ec && it != fs::directory_iterator(); it.increment(ec)) ++n;
+    return n;
+}
+
+// A sparse file of more than 2 GiB (more than 4 GiB in a third of the runs) with marker bytes at a few offsets: positions
+// and sizes beyond 2^31 and 2^32 must come through size(), tell(), seek() and read(buffer) unharmed.
+void bigFileCase(rt::Rng &rng, const std::string &dir) {
+    const char *site = "sparse-file";
+    std::string path = dir + "/sparse.bin";
+    uint64_t size = (rng.chance(330) ? (5ULL << 30) : (2ULL << 30)) + rng.range(20000, 100000);
+    int fd = ::open(path.c_str(), O_CREAT | O_TRUNC | O_WRONLY, 0600);
+    if (fd < 0 || ftruncate(fd, (off_t) size) != 0) { if (fd >= 0) ::close(fd); return; }   // no sparse files here: nothing to judge
+    std::vector<uint64_t> marks = {0, (1ULL << 31) - 3, (1ULL << 31) + 64 + rng.below(5000), size - 40};   // (markers are at most 20 bytes and do not overlap)
+    if (size > (1ULL << 32)) { marks.push_back((1ULL << 32) - 2); marks.push_back((1ULL << 32) + 64 + rng.below(5000)); }
+    auto marker = [](uint64_t off) { return "MARK@" + std::to_string(off) + ";"; };
+    for (uint64_t m : marks) { std::string t = marker(m); if (pwrite(fd, t.data(), t.size(), (off_t) m) != (ssize_t) t.size()) { ::close(fd); fs::remove(path); return; } }
+    ::close(fd);
+    {
+        File f(path, rng.chance(500) ? File::Mode::Read : File::Mode::ReadText);
+        if (f.size() != size) fail("wrong-size", site, "size() = " + std::to_string(f.size()) + " for a sparse file of " + std::to_string(size) + " bytes");
+        for (int k = 0; k < 6 && !gCaseFailed; ++k) {
+            uint64_t m = marks[rng.below(marks.size())];
+            unsigned how = (unsigned) rng.below(3);
+            int rc = how == 0 ? f.seek((long) m, File::Origin::Start) : how == 1 ? f.seek((long) m - (long) size, File::Origin::End) : f.seek((long) m - f.tell(), File::Origin::Current);
+            if (rc != 0 || f.tell() != (long) m) { fail("wrong-tell", site, "seek to offset " + std::to_string(m) + " returned " + std::to_string(rc) + ", tell() = " + std::to_string(f.tell())); break; }
+            if (rng.chance(700)) {
+                ++C.sizeCalls;
+                size_t got = f.size();
+                if (got != size) { fail("wrong-size", site, "size() = " + std::to_string(got) + " at position " + std::to_string(m) + " of a sparse file of " + std::to_string(size) + " bytes"); break; }
+                if (f.tell() != (long) m) { fail("size-moved-position", site, "position " + std::to_string(m) + " became " + std::to_string(f.tell()) + " after size() (file of " + std::to_string(size) + " bytes)"); break; }
+            }
+            std::string want = marker(m), buf(want.size(), '\0');
+            size_t got = f.read(buf.data(), 1, buf.size());
+            if (got != buf.size() || buf != want) { fail("wrong-bytes", site, "read(buffer) at offset " + std::to_string(m) + " returned " + std::to_string(got) + " byte(s) '" + buf.substr(0, 24) + "', expected '" + want + "'"); break; }
+            if (f.tell() != (long) (m + want.size())) { fail("wrong-tell", site, "tell() after reading at offset " + std::to_string(m)); break; }
+        }
+    }
+    fs::remove(path);
+    ++C.sparseFiles;
+}
+
 void runCase(uint64_t c, rt::Rng rng, const std::string &dir, long maxLen) {
     std::string cls;
     size_t len;
@@ -247,7 +305,7 @@ void runCase(uint64_t c, rt::Rng rng, const std::string &dir, long maxLen) {
         File f;
         f.open(Path(path), text ? File::Mode::WriteText : File::Mode::Write);
         if (!f.isOpen()) return fail("open-state", "write", "open for writing failed");
-        if (!writeAll(f, data.substr(0, cut), rng, "write")) return;
+        if (!writeAll(f, data.substr(0, cut), rng, "write", rng.chance(500) ? 0 : (size_t) -1)) return;
         model = data.substr(0, cut);
         if (rng.chance(300)) f.flush();
         if (rng.chance(500)) f.close();   // otherwise the destructor closes
@@ -263,7 +321,7 @@ void runCase(uint64_t c, rt::Rng rng, const std::string &dir, long maxLen) {
         if (model.empty() && rng.chance(300)) { fs::remove(path); fresh = true; }   // append creates a missing file
         (void) fresh;
         File f(path, (text != rng.chance(150)) ? File::Mode::AppendText : File::Mode::Append);
-        if (!writeAll(f, data.substr(pos, n), rng, "append")) return;
+        if (!writeAll(f, data.substr(pos, n), rng, "append", rng.chance(500) ? model.size() : (size_t) -1, true)) return;
         model += data.substr(pos, n);
         pos += n;
         ++C.appends;
@@ -311,6 +369,7 @@ void runCase(uint64_t c, rt::Rng rng, const std::string &dir, long maxLen) {
         if (!gCaseFailed) { std::string got = f.readStr(); if (got != cb) fail("wrong-bytes", "reader-reuse", "second file read through the same File object: " + firstDiff(got.data(), got.size(), cb)); }
         ++C.readerReuses;
     }
+    if (!gCaseFailed && rng.chance((unsigned) rt::optInt("sparse", 12))) bigFileCase(rng, dir);
     ++C.files;
     if (len > 0) {
         ++C.nontrivialCases;
@@ -332,14 +391,21 @@ int main(int argc, char **argv) {
     for (uint64_t c = rt::st().from; c < rt::st().from + rt::st().count; ++c) {
         rt::setCase(c);
         gCaseFailed = false;
+        size_t fdsBefore = openDescriptors();
         runCase(c, rt::Rng(rt::mix(rt::st().seed, c)), dir, maxLen);
+        // every File of the case is closed or destroyed by now, failed opens included. A descriptor that stays behind per
+        // failed open ends, a thousand failures later, in opens that fail or succeed for the wrong reason
+        size_t fdsAfter = openDescriptors();
+        ++C.descriptorChecks;
+        if (!gCaseFailed && fdsAfter > fdsBefore)
+            fail("descriptor-leak", "case", std::to_string(fdsAfter - fdsBefore) + " file descriptor(s) stayed open after all File objects of the case were closed or destroyed (" + std::to_string(fdsBefore) + " -> " + std::to_string(fdsAfter) + ")");
     }
     std::error_code ec;
     fs::remove_all(dir, ec);
     rt::dumpFingerprints(C.fps);
     rt::finish(rt::Json().kv("engine", "h_file").kv("files", C.files).kv("bytesWritten", C.bytesWritten).kv("bytesRead", C.bytesRead)
                    .kv("writeCalls", C.writeCalls).kv("appendSessions", C.appends).kv("truncations", C.truncations).kv("seeks", C.seeks)
-                   .kv("sizeCalls", C.sizeCalls).kv("readCalls", C.readCalls).kv("errorProbes", C.errorProbes).kv("reopenedOnSamePath", C.reopens).kv("readerObjectsReused", C.readerReuses).kv("missingBelowRegularFile", C.missingKinds[1]).kv("missingOverlongName", C.missingKinds[2]).kv("missingInMissingDirectory", C.missingKinds[3]).kv("emptyFiles", C.emptyFiles)
+                   .kv("sizeCalls", C.sizeCalls).kv("sizeCallsWhileWriting", C.sizeCallsWhileWriting).kv("sparseFilesOver2GiB", C.sparseFiles).kv("descriptorChecks", C.descriptorChecks).kv("readCalls", C.readCalls).kv("errorProbes", C.errorProbes).kv("reopenedOnSamePath", C.reopens).kv("readerObjectsReused", C.readerReuses).kv("missingBelowRegularFile", C.missingKinds[1]).kv("missingOverlongName", C.missingKinds[2]).kv("missingInMissingDirectory", C.missingKinds[3]).kv("emptyFiles", C.emptyFiles)
                    .kv("filesWithNul", C.withNul).kv("filesWith0xFF", C.withFF).kv("filesWithCRLF", C.withCRLF).kv("filesOver1MB", C.large)
                    .kv("nontrivialCases", C.nontrivialCases).raw("contentClasses", rt::jsonCounts(C.classes)).raw("modes", rt::jsonCounts(C.modes))
                    .raw("samples", rt::jsonArray(C.samples, false)));
